@@ -25,6 +25,7 @@ PATCHES = {
     "plus-comments": "@@\nvar x expression\n@@\n-foo(x)\n+bar(x) // plus-eol\n+/* plus-block */\n+baz()\n",
     "two-stmts-away": "@@\nvar x expression\n@@\n-foo(x)\n ...\n-return nil\n+return wrapped(x)\n",
     "const-block-to-var": "@@\nvar name identifier\nvar value expression\n@@\n-const (\n+var (\n   name = value\n )\n",
+    "var-to-func": "@@\nvar v identifier\nvar x expression\n@@\n-var v = wrap(x)\n+func v() int { return wrap(x) }\n",
     "method-to-func": "@@\n@@\n-func (r R) target() error {\n+func target() error {\n   ...\n }\n",
     "field": "@@\n@@\n type T struct {\n   ...\n-  Old int\n+  New int\n   ...\n }\n",
     "two-changes": "@@\nvar x expression\n@@\n-foo(x)\n+bar(x)\n\n@@\nvar y expression\n@@\n-bar(y)\n+baz(y, 1)\n",
@@ -80,7 +81,7 @@ def gen_file(rng, pn=""):
     pns[0] = pns[0].replace("combo:", "")
     n = rng.randint(max(3, len(pns)), 8)
     where = dict(zip(rng.sample(range(n), len(pns)), pns))      # declaration index -> patch kind it must contain a site for
-    DECL_LEVEL = ("const-block-to-var", "var-to-const", "type-kind", "method-to-func", "func-sig", "func-rename")
+    DECL_LEVEL = ("const-block-to-var", "var-to-const", "var-to-func", "type-kind", "method-to-func", "func-sig", "func-rename")
     # the first declaration, right below a commented package line and without a doc comment, changed at declaration level
     first_special = rng.random() < 0.35 and any(x in DECL_LEVEL for x in pns)
     if first_special:
@@ -103,16 +104,17 @@ def gen_file(rng, pn=""):
         d = ""
         if rng.random() < 0.35 and not (first_special and i == 0):
             d += "// free-between %d\n\n" % i
-        if rng.random() < 0.6 and not (first_special and i == 0):
+        r_doc = rng.random()
+        if r_doc < 0.5 and not (first_special and i == 0):
             d += comment_lines(rng, "doc", i) + "\n"
-        if rng.random() < 0.15:
-            d += "//go:generate tool %d\n" % i
+        if rng.random() < 0.15 or (0.5 <= r_doc < 0.65 and not (first_special and i == 0)):
+            d += rng.choice(["//go:generate tool %d\n", "//go:noinline\n//nolint:dir%d\n", "//nolint:all // %d\n"]) % i
         kind = rng.random()
         pk = where.get(i)
         need = NEED.get(pk)
         site = rng.random() < 0.45 or pk is not None
         if pk is not None:
-            kind = 0.75 if pk in ("type-kind", "field") else 0.9 if pk == "var-to-const" else 0.99 if pk == "const-block-to-var" else 0.1
+            kind = 0.75 if pk in ("type-kind", "field") else 0.9 if pk in ("var-to-const", "var-to-func") else 0.99 if pk == "const-block-to-var" else 0.1
         if kind < 0.7:
             name = "target" if (site and (rng.random() < 0.3 or (pk or "").startswith(("func-", "three-", "method-")))) else "f%d" % i
             if name == "target" and pk == "method-to-func":
@@ -126,8 +128,9 @@ def gen_file(rng, pn=""):
         elif kind >= 0.97:
             d += "const (\n\tK%d = %d // const-eol %d\n)" % (i, i, i)
         else:
-            d += "var v%d = %s // var-eol %d" % (i, "wrap(foo(%d))" % i if site else "other(%d)" % i, i)
-        if rng.random() < 0.25 and "// var-eol" not in d:
+            d += "var v%d = %s" % (i, "wrap(foo(%d))" % i if site else "other(%d)" % i)
+            d += rng.choice([" // var-eol %d" % i, " // var-eol %d" % i, " //nolint:unused%d" % i, "", ""])
+        if rng.random() < 0.25 and "var v%d =" % i not in d:
             d += " // trailing %d" % i
         parts.append(d + "\n")
     if rng.random() < 0.3:
@@ -194,7 +197,7 @@ def main():
             # several changes in one run: state (snapshot, comment map, positions) is carried from one to the next
             ks = rng.sample(singles, rng.choice([2, 2, 3]))
             if rng.random() < 0.5:      # a declaration-level change last
-                ks = [x for x in ks if x not in ("var-to-const", "type-kind", "method-to-func", "const-block-to-var")][:2] + [rng.choice(["var-to-const", "type-kind", "method-to-func", "const-block-to-var", "const-block-to-var"])]
+                ks = [x for x in ks if x not in ("var-to-const", "var-to-func", "type-kind", "method-to-func", "const-block-to-var")][:2] + [rng.choice(["var-to-const", "var-to-func", "var-to-func", "type-kind", "method-to-func", "const-block-to-var", "const-block-to-var"])]
             pn = "combo:" + "+".join(ks)
             cases.append((pn, "\n".join(PATCHES[x] for x in ks), gen_file(rng, pn)))
         else:
